@@ -75,6 +75,19 @@ def _vmsa_tables(rng, dev, mode):
     for t in range(2):
         for _ in range(4):
             G.set_data(dev, 0x1000 + 0x400 * t + 4 * rng.randrange(256), rng.getrandbits(32).to_bytes(4, 'little'))
+    # stage-2 (long-descriptor) level-1 table at TABLES+0x3000: four 1 GiB identity blocks, used when HCR.VM=1 in a Non-secure PL1/PL0 regime
+    for i in range(4):
+        d = i << 30 | 1 << 10 | 3 << 6 | 0xF << 2 | 0b01
+        r = rng.random()
+        if r < 0.08:
+            d = rng.getrandbits(64)
+        elif r < 0.16:
+            d = (d & ~(3 << 6)) | rng.getrandbits(2) << 6            # stage-2 access permissions
+        elif r < 0.2:
+            d &= ~(1 << 10)                                          # access flag clear
+        elif r < 0.26:
+            d = (d & ~(0xF << 2)) | rng.getrandbits(4) << 2          # memory attributes
+        G.set_data(dev, 0x3000 + 8 * i, d.to_bytes(8, 'little'))
 
 
 def regime(rng, cfg, first=False):
@@ -96,6 +109,12 @@ def regime(rng, cfg, first=False):
         sys['hcptr'] = rng.getrandbits(14) if rng.random() < 0.3 else 0
         if (cpsr & 0x1F) == 0x1a:
             sys['scr'] = sys.get('scr', 0) | 1
+        if rng.random() < 0.3 and (cpsr & 0x1F) not in (0x16, 0x1a):
+            # second-stage translation on for a Non-secure guest: every access also walks the stage-2 tables
+            sys['scr'] = sys.get('scr', 0) | 1
+            sys['hcr'] = (sys['hcr'] | 1) & ~(1 << 27)
+            sys['vttbr'] = TABLES + 0x3000
+            sys['vtcr'] = 1 << 6 | rng.getrandbits(6) << 8
     sys['cpacr'] = rng.getrandbits(28) if rng.random() < 0.5 else 0x0FFFFFFF
     sys['nsacr'] = rng.getrandbits(20) if rng.random() < 0.4 else 0x3FFF
     if cfg['memory_system_architecture'] == 'PMSA':
